@@ -162,7 +162,7 @@ pub fn check_case(c: &Case, l: &mut Local) -> CaseResult {
 }
 
 /// default API (STANDARD): must agree with the same reference, and with `str::parse`
-fn check_default<T: IntT + std::str::FromStr>(text: &[u8], l: &mut Local) -> CaseResult {
+pub fn check_default<T: IntT + std::str::FromStr>(text: &[u8], l: &mut Local) -> CaseResult {
     let r = ref_int(text, T::BITS, T::SIGNED, 10);
     let got_c = iout::<T>(guard(|| lexical_core::parse::<T>(text)), text.len());
     let got_p = ipout::<T>(guard(|| lexical_core::parse_partial::<T>(text)));
